@@ -1,7 +1,7 @@
 """C05 — queries return exactly the matching events, newest first, newest-k under limit."""
 from ._store import run_store
 
-THEOREMS = ['findEvents_sound', 'findEvents_nip01', 'redacted_sound', 'scrape_gate', 'findEvents_total', 'findEvents_exact', 'plan_independent']
+THEOREMS = ['findEvents_sound', 'findEvents_nip01', 'redacted_sound', 'scrape_gate', 'findEvents_total', 'findEvents_exact', 'plan_independent', 'newest_under_limit', 'answer_characterised']
 
 
 def run():
